@@ -147,6 +147,36 @@ NEUTRAL_DECLINED.update({
                          'class of the program'},
     'C20-n10-3': {'C13': 'walker answers collected in comprehensions'},
 })
+_TWO_PASS = ('list translator in two passes (entries collected by one loop, '
+             'built by a second one)')
+_WRAPPED_WALK = ('the directory walker is handed a named local wrapper of '
+                 'the loader instead of the loader: the walker role is not '
+                 'found')
+NEUTRAL_DECLINED.update({
+    'C01-n11-2': {p: _TWO_PASS for p in ('C01', 'C02', 'C15')},
+    'C02-n11-2': {'C02': 'rule store built empty and filled entry by entry'},
+    'C06-n11-1': {p: 'argument list extended with += behind an arithmetic '
+                     'arity test' for p in ('C06', 'C16')},
+    'C10-n11-1': {p: 'newest modification time as a running maximum over '
+                     'os.stat / os.scandir' for p in ('C10', 'C12')},
+    'C10-n11-2': {p: _WRAPPED_WALK for p in (
+        'C03', 'C06', 'C09', 'C10', 'C11', 'C12', 'C18', 'C20')},
+    'C11-n11-1': {p: 'override questions asked through a set intersection '
+                     'of names' for p in ('C11', 'C18')},
+    'C13-n11-1': {'C13': 'cycle walker recursion moved into a local '
+                         'closure'},
+    'C15-n11-2': {'C02': 'non-rule token kinds hoisted into a module-level '
+                         'frozenset and the result split into guard '
+                         'clauses'},
+    'C17-n11-1': {'C17': 'help formatter writes into an io.StringIO '
+                         'buffer'},
+    'C17-n11-3': {'C17': 'sections walked as sorted(policies.items(), '
+                         'key=itemgetter(0))'},
+    'C18-n11-2': {'C18': 'redundant entries selected by filter() with a '
+                         'local predicate closure'},
+    'C19-n11-1': {'C19': 'evaluation and reporting moved into a class of '
+                         'the checker module'},
+})
 # refactorings that preserve the property they were written for and break
 # another one: the report of that other check is right
 NEUTRAL_BREAKS_OTHER = {
